@@ -19,6 +19,7 @@
 -/
 import XzVerif.Model.Proto
 import XzVerif.Model.Lzma2Enc
+import XzVerif.Gen.C01
 import XzVerif.Model.Lzma2
 import XzVerif.Model.LzmaSpec
 open XzVerif XzVerif.Proto XzVerif.RangeEnc XzVerif.LzmaEnc XzVerif.Lzma2Enc XzVerif.LzmaSpec
@@ -110,7 +111,9 @@ def step (ws : List String) : IO String := do
       let tr ← IO.FS.readBinFile (prefix_ ++ ".trace")
       let pd ← readOpt (prefix_ ++ ".pd")
       let cOut ← IO.FS.readBinFile (prefix_ ++ ".out")
-      let r := lzma2Encode { lc := lc, lp := lp, pb := pb } dict (pd ++ data) pd.size (parseTrace tr)
+      -- chunk-closing limits as the source has them today (regenerated on every run)
+      let lim : ChunkLimits := { target := Gen.C01.chunkTarget, compLimit := Gen.C01.chunkCompLimit }
+      let r := lzma2EncodeL lim { lc := lc, lp := lp, pb := pb } dict (pd ++ data) pd.size (parseTrace tr)
       pure (compareOut r cOut none)
     | _, _, _, _ => pure "bad-op"
   | ["spec1", lc, lp, pb, dict, prefix_] =>
